@@ -1,0 +1,19 @@
+//go:build verif
+
+package cache
+
+// This file is only compiled with the build tag "verif".
+
+// VerifEntries lists the nodes held by an LRU cache, most recently used first, without
+// changing their order.
+func VerifEntries(c Cache) []Node {
+	lc, ok := c.(*lruCache)
+	if !ok {
+		return nil
+	}
+	out := make([]Node, 0, lc.ll.Len())
+	for e := lc.ll.Front(); e != nil; e = e.Next() {
+		out = append(out, e.Value.(Node))
+	}
+	return out
+}
